@@ -130,8 +130,12 @@ func genC06(seed uint64, run int, tier string) *Plan {
 	p := &Plan{Prop: "C06", Seed: seed, Run: run, Cfg: seqCfg(r)}
 	p.Cfg.Store = "file"
 	p.Cfg.BlockSize = pick(r, 512, 4096, 65536)
-	if r.IntN(2) == 0 {
+	retention := r.IntN(2) == 0
+	if retention {
+		// small retention settings and short ages, so that commits really trim the change log
+		// (what is persisted must be the trimmed log the engine continues with)
 		p.Cfg.MinOplog, p.Cfg.MaxOplog = 1+r.IntN(4), 5+r.IntN(5)
+		p.Cfg.MinAgeS, p.Cfg.MaxAgeS = 1, pick(r, int64(2), 5, 3600)
 	}
 	colls := []string{"c0", "c1"}
 	dbs := []string{"db", "other"}
@@ -181,6 +185,9 @@ func genC06(seed uint64, run int, tier string) *Plan {
 			op = Op{K: "sleep", Ms: int64(1 + r.IntN(3000))}
 		}
 		tp.Ops = append(tp.Ops, op)
+		if retention && r.IntN(4) == 0 {
+			tp.Ops = append(tp.Ops, Op{K: "sleep", Ms: int64(1100 + r.IntN(5000))})
+		}
 		if r.IntN(6) == 0 {
 			tp.Ops = append(tp.Ops, Op{K: "restart"})
 		}
@@ -199,7 +206,7 @@ func c06Probe(e *Env) string {
 		}
 		c := cat.Namespaces[h]
 		for _, name := range indexNames(c) {
-			if !c.Indexes[name].Config().Unique || name == "_id_" {
+			if !c.Indexes[name].Config().Unique && name != "_id_" {
 				continue
 			}
 			for i, d := range c.Documents.List {
@@ -207,7 +214,10 @@ func c06Probe(e *Env) string {
 					break
 				}
 				probe := toD(d)
-				probe[0].Value = primitive.ObjectID{9, 9, 9, 9, 9, 9, 9, 9, 9, 9, 9, byte(i)}
+				if name != "_id_" {
+					// (for the _id index the probe is the copy itself: same _id)
+					probe[0].Value = primitive.ObjectID{9, 9, 9, 9, 9, 9, 9, 9, 9, 9, 9, byte(i)}
+				}
 				txn, err := e.engine.Begin(context.Background(), true)
 				if err != nil {
 					return "begin failed: " + err.Error()
